@@ -301,3 +301,13 @@ package builder
 //@ func data/builder.BlockSizes$1
 //@ prop C09 C11
 //@ at call github.com/ipld/go-ipld-prime/fluent/qp.Int#1 assert each-entry-is-that-size: callee_i == int64(bs)
+
+// C02 / C11 / C18: a directory entry is the dag-pb link {Hash: the target's link, Name: the entry's
+// name, Tsize: the size it was given}: each value is assembled under the key of that name (whatever
+// the order of the three fields), and nothing else is assembled.
+//@ func data/builder.BuildUnixFSDirectoryEntry
+//@ prop C02 C11 C18
+//@ at call (github.com/ipld/go-ipld-prime/datamodel.NodeAssembler).AssignLink#0 assert the-target-goes-under-Hash: asmFor(callee_recv) == "Hash" && callee_a0 == hash
+//@ at call (github.com/ipld/go-ipld-prime/datamodel.NodeAssembler).AssignInt#0 assert the-size-goes-under-Tsize: asmFor(callee_recv) == "Tsize" && callee_a0 == size
+//@ at call (github.com/ipld/go-ipld-prime/datamodel.NodeAssembler).AssignString#0 assert the-name-goes-under-Name: asmOf(callee_recv) == nil ==> asmFor(callee_recv) == "Name" && callee_v == name
+//@ at call (github.com/ipld/go-ipld-prime/datamodel.NodeAssembler).AssignString#0 assert only-the-three-link-fields-are-keys: asmOf(callee_recv) != nil ==> callee_v == "Hash" || callee_v == "Name" || callee_v == "Tsize"
